@@ -44,6 +44,7 @@ static Args c16_int_decode(Ctx&, Dec& d)
   if (!exact_scalar || mode == 0) { // keep t convertible: fold into |n| <= 2^31-1 (by construction, no rejection)
     i128 nv = tval(ITYPES[ti], n); if (!m_int_in_range(nv)) { nv = nv % 2147483648LL; n = (int64_t)nv; if (!m_int_in_range(tval(ITYPES[ti], n))) n = (int64_t)(u % 1000); } }
   if (mode == 2) x = dec_raw(d, 47);
+  if (mode == 1 && op == 2) { i128 nv = tval(ITYPES[ti], n); if (nv != 0) x = fin_clamp((((i128)1 << 63) - 1 + (int64_t)(u % 5) - 2) / nv); }   // product on the int64 limit
   return { op, form, ti, x, n };
 }
 static Reg r_c16_int({ "C16.int", "C16", "rc",
